@@ -1,7 +1,9 @@
-\* self-test of the property: the protocols cogent3 used BEFORE the repairs (HistoricConfigs, part of the
-\* spec) must be rejected by Atomic; TLC is expected to report a counterexample.  Independent of the code.
+\* self-test of the property on configurations that are part of the spec and must be REJECTED: the protocols
+\* cogent3 used before the C19 repairs, the partial repairs, and an __exit__ that swallows the error of closing
+\* the staged file.  Explored completely with the verdict of OutcomeOK emitted on every transition; the harness
+\* requires a rejected terminal state for every one of these configurations.  Independent of the code.
 SPECIFICATION Spec
 CONSTANTS
-  Configs <- HistoricConfigs
+  Configs <- RejectedConfigs
   PreStates = {"absent", "Old"}
-INVARIANT Atomic
+INVARIANT TypeOK
